@@ -1194,6 +1194,22 @@ long syscall(long number, ...) {
         errno = EAGAIN;
         return -1;
       }
+      if (G.P.p_eintr_x1000 > 0) {
+        // futex(2): FUTEX_WAIT may fail with EINTR (signal or spurious wake-up) and "a return value of 0 can mean a
+        // spurious wake-up". An injected fault of the environment, decided (and recorded) like a scheduling choice.
+        uint16_t d;
+        if (G.P.replay) d = replay_next();
+        else {
+          d = G.rng.chance1000(G.P.p_eintr_x1000) ? (uint16_t)(1 + G.rng.below(2)) : D_DEFAULT;
+          record_decision(d);
+        }
+        if (d != D_DEFAULT) {
+          TRACE("[T%d] futex_wait %p returns early (%s)\n", me->id, (void*)addr, d == 1 ? "EINTR" : "spurious 0");
+          dsched::label_n("futex_wait_returned_early", 1);
+          if (d == 1) { errno = EINTR; return -1; }
+          return 0;
+        }
+      }
       int64_t deadline = -1;
       if (to) {
         int64_t ns = ts_to_ns(to);
